@@ -255,6 +255,12 @@ def enum_ns(tier, seed):
         for usedim in (0, 1):
             for form in ("batch", "single"):
                 yield (m, n, usedim, form, "gauss")
+    # the same real matrices multiplied by 1000, 37 and 2^-10 (rank, kernel and range are unchanged; a rank tolerance that
+    # is not relative to the largest singular value is not), with the rank decided by the library (dim=None)
+    for (m, n) in [(2, 2), (2, 3), (3, 2), (3, 3)] + ([(2, 4), (3, 4)] if tier == "thorough" else []):
+        for scale in (1000.0, 37.0, 2.0 ** -10):
+            for form in ("batch", "single"):
+                yield (m, n, 0, form, "real", scale)
 
 
 def _exact_ranks(A):
@@ -290,7 +296,8 @@ def case_ns(ctx, cfg):
     from geometer.utils import null_space, orth
 
     m, n, usedim, form = cfg[:4]
-    gauss = len(cfg) > 4
+    gauss = len(cfg) > 4 and cfg[4] == "gauss"
+    scale = cfg[5] if len(cfg) > 5 else 1
     A, r = _family_ns(m, n, gauss)
     # Fraction / Q(i) cross-check of the vectorised rank oracle on a slice
     for k in range(0, len(A), max(1, len(A) // 50)):
@@ -310,8 +317,8 @@ def case_ns(ctx, cfg):
         else:
             batches = [sel]
         for B in batches:
-            Bf = B.astype(complex if gauss else float)
-            ctx.state((m, n, rk, usedim, form, B.tobytes()))
+            Bf = B.astype(complex if gauss else float) * scale
+            ctx.state((m, n, rk, usedim, form, scale, B.tobytes()))
             # null space
             kdim = n - rk
             args = (Bf, kdim) if usedim else (Bf,)
@@ -320,7 +327,7 @@ def case_ns(ctx, cfg):
                 N, e = ctx.call(null_space, Bf)
                 ctx.trace()
                 if e is not None or N.shape[-2:] != (n, 0):
-                    ctx.fail(f"null_space:{m}x{n}:trivial-kernel" + (":complex" if gauss else ""), "null_space", {"A": B if B.ndim == 2 else B[0], "dim": None, "form": form}, [n, 0], e if e is not None else list(N.shape))
+                    ctx.fail(f"null_space:{m}x{n}:trivial-kernel" + (":complex" if gauss else ""), "null_space", {"A": B if B.ndim == 2 else B[0], "dim": None, "form": form, "scale": scale}, [n, 0], e if e is not None else list(N.shape))
             if kdim > 0:
                 N, e = ctx.call(null_space, *args)
                 ctx.trace()
@@ -330,9 +337,9 @@ def case_ns(ctx, cfg):
                     ok = N.shape[-1] == kdim and N.shape[-2] == n
                     if ok:
                         G = np.swapaxes(N.conj(), -1, -2) @ N
-                        ok = np.allclose(G, np.eye(kdim), atol=1e-9) and np.allclose(Bf @ N, 0, atol=1e-9)
+                        ok = np.allclose(G, np.eye(kdim), atol=1e-9) and np.allclose(Bf @ N, 0, atol=1e-9 * max(scale, 1))
                     if not ok:
-                        ctx.fail(f"null_space:{m}x{n}:rank{rk}:dim{usedim}" + (":complex" if gauss else ""), "null_space", {"A": B if B.ndim == 2 else B[0], "dim": kdim if usedim else None, "form": form}, f"orthonormal kernel basis of dimension {kdim}", N if N.ndim == 2 else N[0])
+                        ctx.fail(f"null_space:{m}x{n}:rank{rk}:dim{usedim}" + (":complex" if gauss else ""), "null_space", {"A": B if B.ndim == 2 else B[0], "dim": kdim if usedim else None, "form": form, "scale": scale}, f"orthonormal kernel basis of dimension {kdim}", N if N.ndim == 2 else N[0])
             # orth
             if rk > 0:
                 args = (Bf, rk) if usedim else (Bf,)
@@ -345,9 +352,9 @@ def case_ns(ctx, cfg):
                     if ok:
                         G = np.swapaxes(Q.conj(), -1, -2) @ Q
                         P = Q @ np.swapaxes(Q.conj(), -1, -2)
-                        ok = np.allclose(G, np.eye(rk), atol=1e-9) and np.allclose(P @ Bf, Bf, atol=1e-9)
+                        ok = np.allclose(G, np.eye(rk), atol=1e-9) and np.allclose(P @ Bf, Bf, atol=1e-9 * max(scale, 1))
                     if not ok:
-                        ctx.fail(f"orth:{m}x{n}:rank{rk}:dim{usedim}" + (":complex" if gauss else ""), "orth", {"A": B if B.ndim == 2 else B[0], "dim": rk if usedim else None, "form": form}, f"orthonormal range basis of dimension {rk}", Q if Q.ndim == 2 else Q[0])
+                        ctx.fail(f"orth:{m}x{n}:rank{rk}:dim{usedim}" + (":complex" if gauss else ""), "orth", {"A": B if B.ndim == 2 else B[0], "dim": rk if usedim else None, "form": form, "scale": scale}, f"orthonormal range basis of dimension {rk}", Q if Q.ndim == 2 else Q[0])
 
 
 # ---------------------------------------------------------------------------------------------------
